@@ -60,10 +60,12 @@ pub struct Scn {
     pub max_block_cycles: Option<u64>,
     pub max_proposals: u64,
     pub epoch_len: u64,
+    /// real difficulty adjustment (epoch lengths and targets follow the timestamps and uncle counts of each branch)
+    pub adjust: bool,
 }
 impl Default for Scn {
     fn default() -> Self {
-        Scn { max_anc: 25, max_pool_size: 180_000_000, rbf: true, mine: true, window: (2, 4), genesis_cells: 10, max_block_bytes: None, max_block_cycles: None, max_proposals: 1500, epoch_len: 1000 }
+        Scn { max_anc: 25, max_pool_size: 180_000_000, rbf: true, mine: true, window: (2, 4), genesis_cells: 10, max_block_bytes: None, max_block_cycles: None, max_proposals: 1500, epoch_len: 1000, adjust: false }
     }
 }
 pub const MIN_FEE_RATE: u64 = 1000;
@@ -157,6 +159,7 @@ pub fn params_of(s: &Scn) -> Params {
         max_block_bytes: s.max_block_bytes,
         max_block_cycles: s.max_block_cycles,
         max_block_proposals_limit: s.max_proposals,
+        permanent_difficulty: !s.adjust,
         ..Default::default()
     }
 }
@@ -174,7 +177,8 @@ pub fn pool_config(s: &Scn) -> TxPoolConfig {
 impl World {
     pub fn new(scn: &Scn, prefix: &str) -> World {
         let tmp_before = tmp_listing();
-        let c = consensus(&params_of(scn));
+        // under real adjustment the genesis difficulty has to be large enough for a few seconds of epoch duration to move the target
+        let c = if scn.adjust { consensus_with(&params_of(scn), ckb_types::utilities::difficulty_to_compact(ckb_types::U256::from(1_000_000u64))) } else { consensus(&params_of(scn)) };
         let node = Node::start(&NodeCfg { assembler: scn.mine, tx_pool: Some(pool_config(scn)), ..NodeCfg::temp(&c) });
         let outs = (0..scn.genesis_cells)
             .map(|i| OutRec { op: genesis_cell(&c, i), cap: CELL_CAP, name: ("g".to_string(), i as u32 + 1), creator: None, lock_variant: 0, members: vec![] })
@@ -790,19 +794,23 @@ impl World {
         let m = builder_node(&self.c, &anc);
         let mut side = vec![];
         for (k, (props, commits)) in contents.iter().enumerate() {
+            // under real difficulty adjustment the side branch keeps its own clock: the epoch it derives at the next boundary
+            // (length, target) then differs from the main chain's
+            let ts = if self.scn.adjust { m.shared.snapshot().tip_header().timestamp() + BLOCK_INTERVAL_MS + 1000 * ((nonce + k as u64) % 5 + 1) } else { 0 };
             let spec = BlockSpec {
                 commits: commits.iter().map(|&t| self.txs[t].view.clone()).collect(),
                 proposals: props.iter().map(|&t| self.txs[t].view.proposal_short_id()).collect(),
                 nonce: nonce + k as u64,
+                ts,
                 ..Default::default()
             };
             let b = match assemble(&m, &spec) {
                 Ok(b) => b,
-                Err(_) => assemble(&m, &BlockSpec { nonce: nonce + k as u64, ..Default::default() })?,
+                Err(_) => assemble(&m, &BlockSpec { nonce: nonce + k as u64, ts, ..Default::default() })?,
             };
             if m.process(&b).is_err() {
                 // content not valid on that branch: fall back to an empty block
-                let e = assemble(&m, &BlockSpec { nonce: nonce + 1000 + k as u64, ..Default::default() })?;
+                let e = assemble(&m, &BlockSpec { nonce: nonce + 1000 + k as u64, ts, ..Default::default() })?;
                 m.process(&e).map_err(|e| format!("builder rejects empty block: {e}"))?;
                 side.push(e);
             } else {
